@@ -126,9 +126,13 @@ def _gen_case(rng):
     if kind == "BOOL":
         if rng.random() < 0.3:
             a = V.gen_container(rng)
+        elif rng.random() < 0.08:
+            a = V.gen_wrapped(rng)
         return {"kind": kind, "a": a, "b": ["none"], "alias": False}
     if kind in ("IN", "NOT_IN", "INP"):
         c = rng.random()
+        if c < 0.06:
+            return {"kind": kind, "a": a, "b": V.gen_wrapped(rng), "alias": False}
         if c < 0.75:
             b = V.gen_container(rng, member=V.neighbour(rng, a) if rng.random() < 0.7 else None)
         elif c < 0.9:
@@ -349,7 +353,8 @@ def run(ctx: vlib.Ctx):
     ctx.cov["rule"] = ("value pairs from ints (small, +-2**53+-k, +-10**400), floats (NaN, +-inf, +-0.0, subnormal, "
                        "2**53 neighbours, 1e308), bool, None, complex, Decimal (NaN, sNaN, inf), Fraction, str (empty, "
                        "astral, surrogate), bytes/bytearray, list/tuple/set/frozenset/dict/range, one-shot iterators and "
-                       "generators, user classes with random subsets of __eq__..__ge__/__bool__/__len__/__contains__/"
+                       "generators, objects exposing __wrapped__ that are no proxies (functools.wraps / lru_cache / staticmethod / "
+                       "delegating user class), user classes with random subsets of __eq__..__ge__/__bool__/__len__/__contains__/"
                        "__iter__/__next__ (returning bools, non-bools, NotImplemented, objects without truth value, or "
                        "raising), subclasses, numbers.Number-registered classes, exception classes/tuples; x 13 predicate "
                        "kinds; related pairs (copies, aliases, neighbours, members); every case counts as non-trivial; "
